@@ -57,6 +57,10 @@ func TestC19(t *testing.T) {
 	for _, f := range []string{"a", "b", "*", "a b", "d/x", ".h", "é"} {
 		os.WriteFile(filepath.Join(scratch, f), nil, 0o644)
 	}
+	// symbolic links: to a file, to a directory, to nothing, to itself
+	for name, target := range map[string]string{"lf": "a", "ld": "d", "gone": "nowhere", "loop": "loop", "d/up": ".."} {
+		os.Symlink(target, filepath.Join(scratch, name))
+	}
 	defer os.RemoveAll(scratch)
 
 	run := func(tt fataler, req wproto.Req, nt bool, rapidCase bool) wproto.Resp {
@@ -121,8 +125,53 @@ func TestC19(t *testing.T) {
 		}
 		st.ClassN("invalid_utf8_in_context", int64(len(invalidSources())))
 	}
-	// oddities the parser accepts: a here-document operator inside a one-line
-	// substitution (its body is never read), also inside a here-document body
+	// trees made with alias substitution: the text that comes from an alias
+	// has no positions of its own (all its tokens carry the position of the
+	// alias word), which the printer and the position methods have to survive
+	{
+		vals := []string{"echo $((1 + 2))", "((i += 1))", "x=$((1+$x)) y", "echo $(( (1 + 2) * $x ))", "cat <<E\nb\nE\n", "(x\ny)", "{ x\ny; }", "if x\nthen y\nfi", "for i in 1 2\ndo x\ndone", "case x in\nx) y;;\nesac",
+			"x |\ny", "x && y || z", "x; y &", "! x", "f() { x; }", "x >f 2>&1 <<-E\n\tE\n", "echo \"$(a\nb)\" `c\nd`", "echo ${x:-$((1 - 2))} ~/a:~", "x # c\ny", "v=~:~/b w", "while x; do y; done >f", "echo 'a\nb' \"c\nd\" e\\\nf"}
+		srcs := []string{"a", "a b", "a; a", "a | a", "x $(a) y", "{ a; }", "(a)", "if a; then a; fi", "b", "x `a`", "a &&\na", "f() { a; }\n"}
+		k := 0
+		for _, v := range vals {
+			for _, src := range srcs {
+				k++
+				if k%nsh != sh {
+					continue
+				}
+				al := map[string]string{"a": v, "b": "a "}
+				lo := uint(k*8) % 256
+				if k%4 == 0 {
+					lo = 0
+				}
+				hi := lo + 8
+				if k%4 == 0 {
+					hi = 256
+				}
+				run(t, wproto.Req{Op: "downstream", Src: src, Lo: lo, Hi: hi, Dir: scratch, Env: "aliases", Aliases: al, Width: uint(k % 7)}, true, false)
+				st.Class("trees_made_with_alias_substitution")
+			}
+		}
+		st.Note("%d alias values (arithmetic expansions and commands of several parts, here-documents, compound commands and substitutions that span lines, comments, tilde-prefixes) x %d sources that use the alias in a command, a list, a pipeline, substitutions, compound commands and a function body, through every downstream entry point", len(vals), len(srcs))
+	}
+	// tilde-prefixes and colons: assignment values and words expanded in the
+	// Assign mode look for "~" behind every ":"
+	{
+		idx := 0
+		for n := 1; n <= 5; n++ {
+			words([]string{"~", ":", "$", "a", "/", "~root", `"q"`, "$x", "="}, n, func(wd string) {
+				idx++
+				if idx%nsh != sh {
+					return
+				}
+				run(t, wproto.Req{Op: "downstream", Src: "v=" + wd + " c " + wd + " >" + wd + "\n", Lo: uint(idx*8) % 256, Hi: uint(idx*8)%256 + 2, Dir: scratch}, true, false)
+				st.Class("tilde_and_colon_words")
+			})
+		}
+		st.Note("every word of <= 5 symbols over {~ : $ a / ~root \"q\" $x =} as assignment value, argument and redirection target, expanded under every mode")
+	}
+	// here-document operators inside a one-line substitution (rejected since
+	// the repair of #72; kept as inputs), also inside a here-document body
 	if sh == 2%nsh {
 		odd := []string{"echo $(cat <<E)\n", "echo `cat <<E`\n", "cat <<A\n$(cat <<B)\nA\n", "x=$(cat <<E)\n", "cat <<A\n`cat <<-B`\nA\n", "cat <<A\n${x:-$(cat <<B)}\nA\n",
 			"echo \"$(cat <<E)\"\n", "cat <<A <<B\n$(a <<C)\nA\nB\n", "f() { echo $(cat <<E); }\n", "echo $( (cat <<E) )\n", "echo $(<<E)\n", "a $(b <<X c) d <<Y\ny\nY\n"}
